@@ -21,7 +21,7 @@ TIERS = {
     "quick": {"targets": 320, "runs": 300, "ref_seeds": [0, 1, 20260924], "fresh_checks": 6, "redo": 8, "min_budget": 24,
               "chunk": 12, "budget_s": 420, "torchlib": False},
     "thorough": {"targets": 1500, "runs": 5000, "ref_seeds": [0, 1, 2, 3, 7, 1234567, 20260924, 4294967295], "fresh_checks": 40,
-                 "redo": 250, "min_budget": 60, "chunk": 25, "budget_s": 3300, "torchlib": True},
+                 "redo": 250, "min_budget": 60, "chunk": 25, "budget_s": 3300, "torchlib": True, "per_family": 10},
 }
 GC_KNOBS = ["default", "default", "aggressive", "disabled", "collect_between"]
 SKEWS = [0, 0, 0, 64, 1000, 20000]
